@@ -45,6 +45,15 @@ def rule_emptiness(ctx: Ctx) -> None:
         if p.exit and p.exit[0] == "raise":
             continue
         rv = S(p.retval) if p.retval is not None else "None"
+        # whatever the path: GT-less results for unpaired estimates exist only outside FP validation
+        makes_fp = "_get_fp_object_results(" in rv or any(
+            "_get_fp_object_results(" in S(e.value if e.kind == "aug" else (e.args[0] if e.args else None) or ast.Constant(value=0))
+            for e in p.effects if (e.kind == "aug" and e.recv == "object_results") or (e.kind == "call" and e.recv == "object_results" and e.name == "extend"))
+        if makes_fp and fpv is not False and est is not False:
+            ctx.violate("C01-emptiness", "get_object_results", f"gt-less-results:fpv={fpv}",
+                        f"on [{p.cond_text()[:120]}] unpaired estimates become GT-less results " + ("in FP-validation mode" if fpv else "without looking at the FP-validation flag") + "; in FP validation unpaired estimates must be dropped",
+                        fi=fi, expected="no GT-less results unless `not evaluation_task.is_fp_validation()`", found=rv[:80])
+            continue
         if est is False:
             rows += 1
             ctx.check(rv == "[]", "C01-emptiness", "get_object_results", "no-estimates", f"without estimates the function returns `{rv}` instead of []", fi=fi, sample={"row": "est empty", "returns": rv})
